@@ -31,6 +31,33 @@ Theorem C13_remaining_le_14 : forall t, remaining t <= 14.
 Proof. exact remaining_le_14. Qed.
 Print Assumptions C13_remaining_le_14.
 
+(* ---- the same bound on the WHOLE machine (flat code, nested frames, deferred calls, recursion): for every program P,
+   every top-level form and every k: when the compiled hook delivers the interrupt at its k-th call, the number of
+   statements that start and complete while Async is set is at most 14, not counting defer statements; it holds for
+   every frame separately because a call of an interpreted function with the flag set panics at the callee's entry
+   and every way out of a frame polls the flag (invariant LI/J in Proof.v, by induction over the executor).
+   If the evaluation nevertheless returns normally (an interpreted recover() stopped the interrupt panic, or the
+   hook was never called k times) no interrupt is left pending. *)
+Theorem C13_machine_bound : forall fuel P fx fm k o g', eval fuel P fx fm (glob0 k FInterrupt) = (o, g') ->
+  after_all g' <= 14 + after_def g' /\ (o = ONormal -> async (rn g') = false).
+Proof. exact eval_bound. Qed.
+Print Assumptions C13_machine_bound.
+
+(* the invariant itself, for every piece of the executor started in any state satisfying it *)
+Theorem C13_executor_invariant : forall fuel P fx t g o g', go fuel P fx t g = (o, g') -> J g ->
+  (forall fs, t = TLoop fs -> LI fs g) -> J g' /\ post2 t g o g'.
+Proof. exact go_J. Qed.
+Print Assumptions C13_executor_invariant.
+
+(* definitions are kept: whatever happens (interrupt, panic, unwinding through deferred calls, restore, the exit of
+   RunExpr) the interpreted global changes only through executed `x++` statements; the program (the declared
+   functions) is not part of the executor's mutable state.  With C12_restore (C12/Props.v, same machine) the Run
+   record is idle again after the interrupt panic has left the evaluation. *)
+Theorem C13_definitions_kept : forall fuel P fx fm g o g', eval fuel P fx fm g = (o, g') ->
+  gx g' + gincs g = gx g + gincs g'.
+Proof. exact eval_keeps_definitions. Qed.
+Print Assumptions C13_definitions_kept.
+
 (* the design-time probe: `for { hook() }` has 2 statements per iteration, the k-th hook call is statement 2k-1 and
    remaining/2 further calls were observed: 6,5,2,0,6,5,5,2,3 for k = 1,2,5,14,15,16,30,71,100 *)
 Example C13_remaining_matches_probe :
